@@ -415,8 +415,13 @@ func (svr *Server) Serve() error {
 			default:
 				debug("makePacket err: %v", err)
 				svr.conn.Close() // shuts down recvPacket
-				break
 			}
+		}
+		if err != nil && !errors.Is(err, errUnknownExtendedPacket) {
+			// A malformed packet (pkt is partially decoded, or nil for an
+			// unknown type) must never be dispatched, and nothing after it
+			// can be trusted: leave the receive loop.
+			break
 		}
 
 		pktChan <- svr.pktMgr.newOrderedRequest(pkt)
